@@ -42,7 +42,7 @@ const c11Prefix = "/canine_chain."
 var c11Stores = []string{storagetypes.StoreKey, rnstypes.StoreKey, filetreetypes.StoreKey, oracletypes.StoreKey, notiftypes.StoreKey, minttypes.StoreKey}
 
 func c11Variants(tier string) int { return tierN(tier, 1, 8) }
-func c11NHist(tier string) int    { return tierN(tier, 120, 2400) }
+func c11NHist(tier string) int    { return tierN(tier, 120, 16000) }
 func c11NContract(tier string) int {
 	return tierN(tier, 36, 500)
 }
